@@ -24,7 +24,7 @@ RULE = ("generated type definitions (1-4 declared fields, serializers from a poo
         "non-idempotent serializer or >=1 failing one; distinct by (message kind, serializer kinds, failing set, missing field)")
 ASSUMPTIONS = ["Logger.write with an explicit serializer uses MessageType._serializer (the object the library itself passes)",
                "serializers raise Exception subclasses"]
-BATCH = 40
+BATCH = 250
 
 SERS = {
     "ident": lambda v: v,
@@ -39,7 +39,7 @@ KINDS = ["msg_nocontext", "msg_in_action", "action_start", "action_success", "ac
 
 
 def plan(tier, seed):
-    n = 4000 if tier == "quick" else 120000
+    n = 60000 if tier == "quick" else 600000
     return [{"seed": seed, "lo": i, "hi": min(n, i + BATCH), "globals": (i // BATCH) % 2 == 1} for i in range(0, n, BATCH)]
 
 
